@@ -188,6 +188,9 @@ Place(pos, ver, fr, X, D) ==
       [] pos = "grid_in_list" ->
            CellDoc(ver, fr, JArr(<<NGridT(ver, fr, <<>>, <<>>, X), TS("s:q")>>),
                    <<16, <<NGridD(ver, <<>>, <<>>, D), Str(C("q"))>>>>)
+      [] pos = "scalar" ->              \* the value alone (parse_scalar); the harness takes field x of the case
+           [tree |-> BuildGrid(ver, fr, <<>>, <<<<C("v"), <<>>>>>>, "array", <<<<<<C("v"), X>>>>>>),
+            den  |-> <<<<18, ver, <<>>, <<<<C("v"), <<>>>>>>, <<<<D>>>>>>>>]
       [] pos = "top_array" ->           \* a JSON array of two grids
            LET one == CellDoc(ver, fr, X, D)
                two == CellDoc(ver, fr, N1t, N1d)
@@ -196,11 +199,14 @@ Place(pos, ver, fr, X, D) ==
 NestedPos == {"list_elem", "dict_val", "dict_val_rev", "list_in_dict", "dict_in_list", "ngrid_cell", "ngrid_gmeta",
               "ngrid_cmeta", "grid_in_list"}
 TagPos == {"gmeta", "cmeta", "dict_val", "dict_val_rev", "dict_in_list", "ngrid_gmeta", "ngrid_cmeta"}   \* a tag is never null
-AllPos == {"cell", "cell_first", "gmeta", "cmeta", "top_array"} \cup NestedPos
+AllPos == {"cell", "cell_first", "gmeta", "cmeta", "top_array", "scalar"} \cup NestedPos
+\* at scalar level the API takes JSON text as well, so a string that is itself JSON text is not a scalar case
+JsonLike == {"json_list", "json_str", "json_obj", "json_list_valid"}
 PosOk(e, pos, ver) ==
     /\ (pos \in NestedPos => ver = V30s)
     /\ (e.k \in Only3Kinds => ver = V30s)
     /\ ~(e.k = "null" /\ pos \in TagPos)
+    /\ ~(pos = "scalar" /\ e.l \in JsonLike)
 
 \* `rows` liberties and rows that omit columns
 RowsDoc(form, ver, fr) ==
@@ -229,7 +235,7 @@ Vers == {V20s, V30s}
 VerName(ver) == IF ver = V20s THEN "2.0" ELSE "3.0"
 SpOf(e, ver) == IF IsScalar(e) THEN Spellings(e.v, ver) ELSE {Sp("canon", "", "", "", FALSE)}
 
-QuickPos(e) == IF e.rep THEN AllPos ELSE {"cell", "gmeta", "list_elem"}
+QuickPos(e) == IF e.rep THEN AllPos ELSE {"cell", "gmeta", "list_elem", "scalar"}
 SinglesOf(e, ver, tier) ==
     { x \in { [t |-> "single", e |-> e, sp |-> sp, pos |-> pos, ver |-> ver, fr |-> fr] :
                 sp \in SpOf(e, ver),
@@ -275,7 +281,8 @@ MCSpec  == MCInit /\ [][Check]_<<cs, ph>>
 CaseOut(ch) ==
     LET w == MkCase(ch)
         base == [t |-> ch.t, ver |-> VerName(ch.ver), fr |-> ch.fr, lib |-> IsLib(ch), tree |-> w.tree, den |-> w.den]
-    IN CASE ch.t = "single" -> base @@ [k |-> ch.e.k, l |-> ch.e.l, sp |-> ch.sp.n, pos |-> ch.pos]
+    IN CASE ch.t = "single" -> base @@ [k |-> ch.e.k, l |-> ch.e.l, sp |-> ch.sp.n, pos |-> ch.pos,
+                                        x |-> Tree1(ch.e, ch.sp, ch.ver)]
          [] ch.t = "rows"   -> base @@ [k |-> "rows", l |-> ch.form, sp |-> ch.form, pos |-> "rows"]
          [] ch.t = "pair"   -> base @@ [k |-> ch.e.k, l |-> ch.e.l, sp |-> ch.sp.n, pos |-> ch.pos,
                                         k2 |-> ch.e2.k, l2 |-> ch.e2.l, sp2 |-> ch.sp2.n]
